@@ -65,3 +65,28 @@ func VerifSetMaxDecompressedSize(n int64) int64 {
 // virtual time, so such a bounded busy-wait would never end; with the verif tag
 // each iteration costs one millisecond instead.
 func verifBusyYield() { time.Sleep(time.Millisecond) }
+
+// VerifSetUnusedPartitionSequence places the idempotent producer sequence of a
+// loaded but never produced-to partition at seq (both the next sequence and
+// the sequence of the first pending batch), so that a check can produce
+// across the 2^31 wrap without producing 2^31 records first. It reports
+// whether the partition was loaded and unused.
+func VerifSetUnusedPartitionSequence(cl *Client, topic string, partition, seq int32) bool {
+	tp, ok := cl.producer.topics.load()[topic]
+	if !ok {
+		return false
+	}
+	parts := tp.load().partitions
+	if int(partition) >= len(parts) || parts[partition].records == nil {
+		return false
+	}
+	rb := parts[partition].records
+	rb.mu.Lock()
+	defer rb.mu.Unlock()
+	if rb.seq != 0 || rb.batch0Seq != 0 || len(rb.batches) != 0 {
+		return false
+	}
+	rb.seq, rb.batch0Seq = seq, seq
+	rb.needSeqReset = false // as on a partition already produced to under the current producer epoch
+	return true
+}
